@@ -27,8 +27,9 @@ Mapping real event (a goroutine completed the step it was released into) → mod
 | C `C.recv` k (→ ready / C.select)                | `cRecv`, then `schedNext C v'` / `schedEnd C`             |
 | C `C.recv` k (→ C.exit)                          | none; checked: `expect = 1` (deferred to `C.exit`)        |
 | C `C.exit` (goroutine gone)                      | `cRecv` (the last one: `cAlive := false`)                |
-| C `C.ctxDone` (goroutine gone)                   | `cCtxDone`                                               |
+| C `C.ctxDone` (goroutine gone; it first waits for `spawned`, closed by the caller's last loop step) | `cCtxDone` (enabled iff `m = none`) |
 | M `M.wait` (walk returned r)                     | none; checked: `terminal`, r = `firstErr`                |
+| X `extCancel` (the harness cancels the context it passed to `InDependencyOrder`) | `extCancel`               |
 -/
 open Lean
 namespace CV.Ops.C13
@@ -79,7 +80,9 @@ def insertSorted (p : Nat × String) : List (Nat × String) → List (Nat × Str
 /-- canonical rendering of what every goroutine of the model is about to do -/
 def view (limit : Option Nat) (s : St) : String :=
   let c := if s.cAlive then
-      [subStr "C" limit s s.cSched ("select" ++ (if !s.ch.isEmpty || s.cancelled then "+" else "-"))] else []
+      [subStr "C" limit s s.cSched ("select" ++ (if !s.ch.isEmpty || s.cancelled then "+" else "-")
+          -- may the coordinator leave through ctx.Done()?  only once the caller has left its loop (`<-spawned`)
+          ++ (if s.cancelled then (if s.m.isNone then "+" else "-") else "."))] else []
   let m := [subStr "M" limit s s.m ("wait" ++ (if decide (terminal s) then "+" else "-"))]
   let ws := (s.workers.foldl (fun acc p => insertSorted (p.1, pcStr p.2) acc) []).map
       fun p => "W" ++ ns p.1 ++ ":" ++ p.2
@@ -164,6 +167,7 @@ def applyEvt (g : Graph) (lim : Option Nat) (s : St) (e : Evt) : Except String S
     if s'.cAlive then throw "real coordinator exited, model one continues"
     pure s'
   | "C", "C.ctxDone" => run g lim s [.cCtxDone]
+  | "X", "extCancel" => run g lim s [.extCancel]
   | gs, st =>
     match whoOf gs with
     | none => throw ("unknown goroutine " ++ gs)
